@@ -15,9 +15,11 @@ import time
 
 ROOT = os.path.dirname(os.path.dirname(os.path.abspath(__file__)))
 REPO = os.environ.get("VERIF_REPO", "/repo")
-BUILD = os.path.join(ROOT, "build")
+# VERIF_REPO / VERIF_BUILD / VERIF_EVID redirect a run to a scratch tree (used only to try seeded changes
+# in a scratch worktree; the registered commands never set them)
+BUILD = os.environ.get("VERIF_BUILD", os.path.join(ROOT, "build"))
 SPEC = os.path.join(ROOT, "spec")
-EVID = os.path.join(ROOT, "evidence")
+EVID = os.environ.get("VERIF_EVID", os.path.join(ROOT, "evidence"))
 REPLAY = os.path.join(EVID, "replay")
 NCPU = os.cpu_count() or 4
 
